@@ -1857,13 +1857,27 @@ class PrepareAst:
 
                     pattern._result = pattern_val
 
+                    if len(cases) == 0:
+                        cond_subject = subject
+                    else:
+                        # The subject is evaluated once, only the first
+                        # comparison contains the statements bound to it.
+                        cond_subject = out.Value(subject.result(), [])
+
                     cond = out.Compare(
-                        out.Compare.Operator.EQ, subject, pattern, Temporary[bool]()
+                        out.Compare.Operator.EQ,
+                        cond_subject,
+                        pattern,
+                        Temporary[bool](),
                     )
                     body = cast(out.CodeBlock, self.apply(case.body))
                     cases.append((cond, body))
                 else:
                     raise AssertionError(f"unsupported match pattern '{case.pattern}'")
+
+            if len(cases) == 0 and len(subject.bound_statements()) != 0:
+                # there is no comparison that evaluates the subject
+                return out.CodeBlock([subject, out.CondSelect(cases, default_body)])
 
             return out.CondSelect(cases, default_body)
 
